@@ -31,7 +31,8 @@ def scratch_copy() -> str:
     return d
 
 
-def run_check(prop: str, src: str, seed: str = "1", extra=None):
+def run_check(prop: str, src: str, seed: str = "", extra=None):
+    seed = seed or os.environ.get("VERIF_SEED", "1")
     env = dict(os.environ, VF_REPO_SRC=src, VERIF_SEED=seed)
     t0 = time.time()
     p = subprocess.run([PY, "-m", "vf.run", prop, "--no-evidence", *(extra or [])], cwd=ROOT, env=env,
@@ -87,7 +88,9 @@ def apply_patch(d: str, patch: str) -> bool:
 
 def cmd_run(pattern: str, suite: bool, seeded: bool) -> None:
     results = {}
-    out_file = os.path.join(ROOT, "evidence", "sensitivity_seeded.json" if seeded else "sensitivity.json")
+    seed = os.environ.get("VERIF_SEED", "1")
+    suffix = "" if seed == "1" else f"_seed{seed}"
+    out_file = os.path.join(ROOT, "evidence", ("sensitivity_seeded" if seeded else "sensitivity") + suffix + ".json")
     if os.path.exists(out_file):
         results = json.load(open(out_file))
     if seeded:
